@@ -18,10 +18,10 @@ TABLE_TYPES = ["OTU table", "Pathway table", "Function table",
 
 ID_CLASSES = ['ascii', 'one', 'long', 'punct', 'space', 'slash', 'numeric',
               'natsort', 'latin1', 'cjk', 'astral', 'prefix', 'case',
-              'mixed']
+              'reserved', 'mixed']
 # classes safe for the classic TSV format (no tab/newline/#-start/edge blank)
 VALUE_CLASSES = ['count', 'bigcount', 'dyadic', 'frac', 'neg', 'tiny',
-                 'manydigits', 'huge', 'subnormal', 'mixed']
+                 'manydigits', 'huge', 'subnormal', 'const', 'mixed']
 
 _PUNCT = list('[]{}"\'\\,;:|#()<>=+-*&^%$@!~`?._')
 _LATIN = list('éèüñøßÆçÀ')
@@ -96,6 +96,18 @@ def gen_ids(r, n, cls, prefix):
         r.shuffle(pool)
         return _uniq(r, n, lambda i: pool[i] if i < len(pool)
                      else base + str(r.randrange(10 ** 6)))
+    if cls == 'reserved':
+        # ids that are words the library or its formats use themselves
+        pool = ['all', 'taxonomy', 'None', 'null', 'true', 'false', 'nan',
+                'inf', 'id', 'ids', 'metadata', 'matrix', 'sample',
+                'observation', 'whole', 'shape', 'data', 'rows', 'columns',
+                'indices', 'indptr', 'OTU ID', 'collapsed_ids', 'Path',
+                'empty', 'raise', 'dense', 'sparse', 'type', 'date',
+                'format', 'self', 'axis']
+        pool = [p if prefix.lower() < 'p' else p + '_' for p in pool]
+        r.shuffle(pool)
+        return _uniq(r, n, lambda i: pool[i] if i < len(pool)
+                     else prefix + str(r.randrange(10 ** 6)))
     if cls == 'latin1':
         return _uniq(r, n, lambda i: prefix + ''.join(
             r.choice(_LATIN) for _ in range(r.randint(1, 4))) + str(i))
@@ -111,6 +123,10 @@ def gen_ids(r, n, cls, prefix):
 def gen_value(r, vclass):
     if vclass == 'mixed':
         vclass = r.choice([c for c in VALUE_CLASSES if c != 'mixed'])
+    if vclass == 'const':
+        # one and the same value everywhere (ties, equal totals); the value
+        # is fixed per generator stream position by gen_matrix
+        return 2.0
     if vclass == 'count':
         return float(r.randint(1, 9))
     if vclass == 'bigcount':
@@ -138,10 +154,14 @@ def gen_value(r, vclass):
 def gen_matrix(r, n, m, vclass, density, force=None):
     """force in {None,'zero-row','zero-col','single','diag','zero-both'}"""
     D = np.zeros((n, m), dtype=np.float64)
+    const = r.choice([1.0, 2.0, 5.0, 0.5, 3.0]) if vclass == 'const' else None
     for i in range(n):
         for j in range(m):
             if r.random() < density:
-                D[i, j] = gen_value(r, vclass)
+                D[i, j] = gen_value(r, vclass) if const is None else const
+    if const is not None and r.random() < .4 and n and m:
+        # every vector the same total: a full constant block
+        D[:] = const
     if force == 'single':
         D[:] = 0
         D[r.randrange(n), r.randrange(m)] = gen_value(r, vclass)
@@ -336,6 +356,13 @@ def gen_spec(r, max_n=6, max_m=6, id_classes=None, value_classes=None,
         D[r.randrange(n), r.randrange(m)] = gen_value(r, vclass)
     obs_ids = gen_ids(r, n, idc_o, 'O')
     samp_ids = gen_ids(r, m, idc_s, 'S')
+    same = False
+    if shape is None and n == m and n <= 6 and r.random() < .15:
+        # a square table whose two axes carry the same labels
+        samp_ids = list(obs_ids)
+        if r.random() < .5:
+            r.shuffle(samp_ids)
+        same = True
     kinds = md_kinds or MD_KINDS
     ok = r.choice(kinds)
     sk = r.choice(kinds)
@@ -345,7 +372,7 @@ def gen_spec(r, max_n=6, max_m=6, id_classes=None, value_classes=None,
     classes = {'shape': '%dx%d' % (n, m), 'size': 'wide' if max(n, m) > 256 else 'big' if max(n, m) > 7
                else 'small', 'ids_obs': idc_o, 'ids_samp': idc_s,
                'values': vclass, 'density': dens, 'force': force,
-               'md_obs': ok, 'md_samp': sk,
+               'md_obs': ok, 'md_samp': sk, 'same_ids_both_axes': same,
                'allzero': not D.any()}
     return Spec(obs_ids, samp_ids, D, obs_md, samp_md, ttype, None, classes)
 
